@@ -795,11 +795,14 @@ class ProcProxy:
         else:
             if isinstance(self.stdin, int):
                 inbuf = open(self.stdin, "rb", -1)
-            else:
-                inbuf = self.stdin
-            stdin = io.TextIOWrapper(inbuf, encoding=enc, errors=err)
-            if isinstance(self.stdin, int):
+                stdin = io.TextIOWrapper(inbuf, encoding=enc, errors=err)
                 owned_handles.append(stdin)
+            elif hasattr(self.stdin, "encoding"):
+                # already a text stream (`alias < file` opens the file in text
+                # mode): wrapping it again fails on the first read
+                stdin = self.stdin
+            else:
+                stdin = io.TextIOWrapper(self.stdin, encoding=enc, errors=err)
         stdout = self._pick_buf(self.stdout, sys.stdout, enc, err)
         if stdout is not self.stdout and stdout is not sys.stdout:
             owned_handles.append(stdout)
